@@ -1060,8 +1060,21 @@ def _infer_expr_type(
                 var_types[loop_name] = saved_type
         return _make_list_type_label(element_type)
 
+    def _visit_operand(child: ast.AST) -> None:
+        # the result type does not depend on the operand, but a helper call in it
+        # still has to be recorded with the argument types used here
+        _infer_expr_type(
+            child,
+            var_types,
+            functions,
+            function_param_types,
+            function_param_orders,
+            ctx,
+        )
+
     if isinstance(node, ast.UnaryOp):
         if isinstance(node.op, ast.Not):
+            _visit_operand(node.operand)
             return "bool"
         return _infer_expr_type(
             node.operand,
@@ -1073,12 +1086,18 @@ def _infer_expr_type(
         )
 
     if isinstance(node, ast.BoolOp):
+        for value in node.values:
+            _visit_operand(value)
         return "bool"
 
     if isinstance(node, ast.Compare):
+        _visit_operand(node.left)
+        for comparator in node.comparators:
+            _visit_operand(comparator)
         return "bool"
 
     if isinstance(node, ast.IfExp):
+        _visit_operand(node.test)
         body_type = _infer_expr_type(
             node.body,
             var_types,
